@@ -101,6 +101,9 @@ impl Stats {
         }
     }
     pub fn sample(&mut self, f: impl FnOnce() -> Value) {
+        if cfg!(miri) {
+            return; // formatting is very slow under the interpreter; samples come from the native runs
+        }
         // first few, then a thinning stream (powers of two of the evaluation counter)
         let n = self.evaluations;
         if self.samples.len() < self.sample_budget || (n.is_power_of_two() && n >= 64 && self.samples.len() < self.sample_budget * 3) {
